@@ -531,4 +531,61 @@ def numRefs : List Tok → Nat
   | .ref .. :: ts => numRefs ts + 1
   | _ :: ts => numRefs ts
 
+/-! ## the "no known reference is left" oracle (evaluated on the implementation's output) -/
+
+/-- every `$` is directly followed by `{` (so no `$$` escape can be involved, also not after concatenation) -/
+def dollarsOpen : Str → Bool
+  | [] => true
+  | [c] => c != '$'
+  | c :: d :: r => (c != '$' || d == '{') && dollarsOpen (d :: r)
+
+/-- if the string starts with `${body}` (first `}` after it), that body -/
+def refBodyAt : Str → Option Str
+  | c :: d :: r =>
+    if c = '$' ∧ d = '{' then
+      (match (splitOnClose r).2 with
+       | [] => none
+       | _ :: _ => some (splitOnClose r).1)
+    else none
+  | _ => none
+
+/-- the provider key a reference body names, if the provider has it -/
+def knownRef (env : Env) (body : Str) : Option (Str × Str) :=
+  if hasColon body then
+    match splitColon body with
+    | some (sc, nm) => if env.schemes.contains sc && (env.prov sc nm).isSome then some (sc, nm) else none
+    | none => none
+  else
+    match env.defaultScheme with
+    | some d => if env.schemes.contains d && (env.prov d body).isSome then some (d, body) else none
+    | none => none
+
+/-- first complete innermost reference to an existing provider key occurring in the string -/
+def leftoverRef (env : Env) : Str → Option (Str × Str)
+  | [] => none
+  | c :: r =>
+    match refBodyAt (c :: r) with
+    | some body =>
+      if hasDollar body then leftoverRef env r
+      else match knownRef env body with
+        | some k => some k
+        | none => leftoverRef env r
+    | none => leftoverRef env r
+
+mutual
+/-- every string of a resolved value, `Original`s included -/
+def valStrings : Val → List Str
+  | .str s => [s]
+  | .expanded v o => o :: valStrings v
+  | .list xs => valsStrings xs
+  | .map m => kvsStrings m
+  | _ => []
+def valsStrings : Vals → List Str
+  | .nil => []
+  | .cons v vs => valStrings v ++ valsStrings vs
+def kvsStrings : KVs → List Str
+  | .nil => []
+  | .cons _ v r => valStrings v ++ kvsStrings r
+end
+
 end OtelVerif.C12
